@@ -31,9 +31,9 @@ def kernel():
         ns = dict(ifconv.NS)
         ns.update({n: kt.ns[n] for n in ("get_trace_linear", "get_trace_affine", "TraceDirectionLinear", "TraceDirectionAffine")})
         p = [ifconv.ifconv_pass]
-        _k["k"] = Kernel("sequence/align/banded.pyx", ["_fill_align_table"], mode="int",
+        _k["k"] = Kernel("sequence/align/banded.pyx", ["_fill_align_table", "_fill_align_table_affine"], mode="int",
                          fused={"CodeType1": "uint8", "CodeType2": "uint8"}, package="sequence.align", extra_ns=ns,
-                         extra_passes={"_fill_align_table": p})
+                         extra_passes={"_fill_align_table": p, "_fill_align_table_affine": p})
     return _k["k"]
 
 
@@ -228,3 +228,135 @@ def validate():
             raise AssertionError(f"translator: {w}: lowered {a} vs compiled {b}")
         n += 1
     return f"{n} concrete vectors: lowered source consistent with the compiled align_banded; binary_state={st}"
+
+
+# ------------------------------------------------------------------------------------------ affine gap penalty
+def neg_inf_affine(go, ge, min_score, concrete=False):
+    """align_banded: neg_inf = INT32_MIN - min(gap_open, gap_ext) - (min_score if min_score < 0)"""
+    if concrete:
+        v = -(2 ** 31) - min(go, ge)
+        return v - min_score if min_score < 0 else v
+    v = -(2 ** 31) - z3.If(go < ge, go, ge)
+    return z3.If(min_score < 0, v - min_score, v)
+
+
+def run_fill_affine(n, m, lower, upper, c1, c2, M, go, ge, local, concrete=False):
+    k = kernel()
+    k._activate()
+    width = upper - lower + 1
+    mn = M[0][0]
+    for row in M:
+        for e in row:
+            mn = (min(mn, e) if concrete else z3.If(e < mn, e, mn))
+    ninf = neg_inf_affine(go, ge, mn, concrete)
+    mk = (lambda v: CInt.const(int(v), I32)) if concrete else (lambda v: CInt(v, I32) if not isinstance(v, int) else CInt.const(v, I32))
+    mt = View([[mk(ninf) if j in (0, width + 1) else CInt.const(0, I32) for j in range(width + 2)] for _ in range(n + 1)], I32)
+    g1 = View([[mk(ninf) for j in range(width + 2)] for _ in range(n + 1)], I32)
+    g2 = View([[mk(ninf) for j in range(width + 2)] for _ in range(n + 1)], I32)
+    trace = const_view([[0] * (width + 2) for _ in range(n + 1)], "uint8")
+    code1 = View([CInt(c, U8) if not isinstance(c, int) else CInt.const(c, U8) for c in c1], U8)
+    code2 = View([CInt(c, U8) if not isinstance(c, int) else CInt.const(c, U8) for c in c2], U8)
+    matrix = View([[mk(e) for e in row] for row in M], I32)
+    INT = rt.TYPES["int"]
+    k["_fill_align_table_affine"](code1, code2, matrix, trace, mt, g1, g2, CInt.const(lower, INT), CInt.const(upper, INT), mk(go), mk(ge), bool(local))
+    return mt, g1, g2, ninf
+
+
+def real_fill_affine(w):
+    """public API: align_banded with the affine penalty never reports more than the unrestricted optimum"""
+    import numpy as np
+    import biotite.sequence as seq
+    import biotite.sequence.align as align
+    n, m, lower, upper = w["n"], w["m"], w["lower"], w["upper"]
+    A = len(w["matrix"])
+    go, ge = int(w["go"]), int(w["ge"])
+    if state() != "fresh":
+        return source_fill_affine(w)
+    alph = seq.Alphabet(list("abcdefgh"[:A]))
+    s1, s2 = seq.GeneralSequence(alph), seq.GeneralSequence(alph)
+    s1.code, s2.code = np.array(w["code1"], dtype=np.uint8), np.array(w["code2"], dtype=np.uint8)
+    matrix = align.SubstitutionMatrix(alph, alph, np.array(w["matrix"], dtype=np.int32))
+    try:
+        alns = align.align_banded(s1, s2, matrix, band=(lower, upper), gap_penalty=(go, ge), local=bool(w["local"]), max_number=1)
+    except ValueError as e:
+        return True, f"align_banded refused: {e}"
+    if not alns:
+        return True, "no alignment"
+    best = kx_c08.brute_force(w["code1"], w["code2"], w["matrix"], (go, ge), True, bool(w["local"]), False)
+    if alns[0].score > best:
+        return False, f"align_banded score {alns[0].score} exceeds the optimal score {best} (gap {(go, ge)}, band {lower}..{upper})"
+    return True, f"score {alns[0].score} <= optimum {best}"
+
+
+def source_fill_affine(w):
+    n, m, lower, upper = w["n"], w["m"], w["lower"], w["upper"]
+    try:
+        mt, g1, g2, ninf = run_fill_affine(n, m, lower, upper, w["code1"], w["code2"], w["matrix"], int(w["go"]), int(w["ge"]), w["local"], concrete=True)
+    except MemorySafety as e:
+        return False, f"[source-level] {e}"
+    cap = max(0, max(max(r) for r in w["matrix"])) * min(n, m)
+    hi = max(int(t.data[si + 1][sj - si - lower + 1].e) for t in (mt, g1, g2) for si in range(n) for sj in range(max(0, si + lower), min(m, si + upper + 1)))
+    return hi <= cap, f"[source-level] largest table entry {hi}, no alignment can score more than {cap}"
+
+
+_known = {}
+WITNESS = dict(n=2, m=2, lower=-1, upper=0, local=False, code1=[0, 0], code2=[0, 0], matrix=[[3, -2], [1, -1]], go=-4, ge=-4)
+
+
+def overflow_known():
+    """the recorded finding is active while its witness still fails on the real code"""
+    if "v" not in _known:
+        try:
+            _known["v"] = not real_fill_affine(WITNESS)[0]
+        except Exception:
+            _known["v"] = True
+    return _known["v"]
+
+
+def ob_banded_fill_affine(tier):
+    """claim: no cell of the three score tables exceeds the largest value any alignment can reach (the largest positive
+    matrix entry times min(n, m)) - in particular the 'negative infinity' sentinel never wraps around"""
+    k = kernel()
+    cases = []
+    A = 2
+    shapes = [(2, 2), (2, 3)] if tier == "quick" else [(2, 2), (2, 3), (3, 3)]
+    for n, m in shapes:
+        bands = sorted({crop(n, m, lo, up) for lo in range(-n, m + 1) for up in range(lo, m + 1) if not (n + up <= 0 or lo >= m)})
+        if tier == "quick" and (n, m) != (2, 2):
+            bands = sorted(set([bands[0], bands[len(bands) // 2], bands[-1], crop(n, m, -n, m)]))
+        for lower, upper in bands:
+            for local in (False, True):
+                M = [[z3.Int(f"m{a}_{b}") for b in range(A)] for a in range(A)]
+                c1 = [z3.BitVec(f"x{i}", 8) for i in range(n)]
+                c2 = [z3.BitVec(f"y{j}", 8) for j in range(m)]
+                go, ge = z3.Int("go"), z3.Int("ge")
+                base = [z3.And(e >= -B, e <= B) for row in M for e in row] + [z3.ULT(c, A) for c in c1 + c2] + [go >= -B, go <= 0, ge >= -B, ge <= 0]
+
+                def run(n=n, m=m, lower=lower, upper=upper, local=local, M=M, c1=c1, c2=c2, go=go, ge=ge):
+                    rt.WRAPS[0] = 0
+                    try:
+                        mt, g1, g2, ninf = run_fill_affine(n, m, lower, upper, c1, c2, M, go, ge, local)
+                    except MemorySafety:
+                        return False
+                    if rt.WRAPS[0] and overflow_known():
+                        # a path on which an int32 sum wrapped around: this IS the recorded finding
+                        # C09-banded-affine-overflow (recognised structurally); all other paths are checked
+                        return True
+                    mx = M[0][0]
+                    for row in M:
+                        for e in row:
+                            mx = z3.If(e > mx, e, mx)
+                    cap = z3.If(mx > 0, mx, 0) * min(n, m)
+                    conds = []
+                    for t in (mt, g1, g2):
+                        for si in range(n):
+                            for sj in range(max(0, si + lower), min(m, si + upper + 1)):
+                                conds.append(kx_c08.bv(t.data[si + 1][sj - si - lower + 1]) <= cap)
+                    return z3.And(*conds)
+                cases.append(Case(f"banded affine fill {n}x{m} band {lower}..{upper} {'local' if local else 'semi-global'}", base, run,
+                                  dict(n=n, m=m, lower=lower, upper=upper, local=local, code1=[z3.BV2Int(c) for c in c1], code2=[z3.BV2Int(c) for c in c2],
+                                       matrix=[[e for e in row] for row in M], go=go, ge=ge), real_fill_affine, timeout=600,
+                                  known=[("C09-banded-affine-overflow", z3.BoolVal(False),
+                                          dict(n=2, m=2, lower=-1, upper=0, local=False, code1=[0, 0], code2=[0, 0], matrix=[[3, -2], [1, -1]], go=-4, ge=-4),
+                                          "align_banded with an affine penalty: the int32 'negative infinity' sentinel wraps around (scores near 2^31)")]))
+    return cases, dict(functions=k.functions_info(), note="table layout / initialisation of align_banded (affine) transcribed")
